@@ -106,13 +106,11 @@ impl BmpStateDetails<Updating> {
         update: &UpdateMessage<Bytes>,
     ) -> ControlFlow<ProcessingResult, Self> {
         if let Ok(Some(afi_safi)) = update.is_eor() {
-            if self.details.remove_pending_eor(pph, afi_safi) {
-                let num_pending_eors = self.details.num_pending_eors();
-                self.status_reporter.pending_eors_update(
-                    self.router_id.clone(),
-                    num_pending_eors,
-                );
-            }
+            self.details.remove_pending_eor(pph, afi_safi);
+            self.status_reporter.pending_eors_update(
+                self.router_id.clone(),
+                self.details.num_peers_with_pending_eors(),
+            );
         }
 
         ControlFlow::Continue(self)
@@ -287,6 +285,10 @@ impl PeerAware for Updating {
 
     fn num_pending_eors(&self) -> usize {
         self.peer_states.num_pending_eors()
+    }
+
+    fn num_peers_with_pending_eors(&self) -> usize {
+        self.peer_states.num_peers_with_pending_eors()
     }
 
     fn add_announced_prefix(
